@@ -75,6 +75,8 @@ class Engine(object):
         self.max_cex = 4
         self.concretize_divisors = False
         self.uf_division = False
+        self.hash_concretize = False
+        self.concretize_shapes = False
 
     # -- exploration ---------------------------------------------------------
     def explore(self, fn, deadline=None):
@@ -209,6 +211,16 @@ class Engine(object):
         self.pos += 1
         self.decided[tid] = (v, term)
         return v
+
+    def known_value(self, term):
+        """value of an integer term if it is a constant or was already concretised on this path"""
+        term = z3.simplify(term)
+        if z3.is_int_value(term):
+            return term.as_long()
+        hit = self.decided.get(term.get_id())
+        if hit is not None and isinstance(hit[0], int) and not isinstance(hit[0], bool):
+            return hit[0]
+        return None
 
     def concretize(self, term, cap=None):
         """Enumerate feasible integer values of term; fork on each."""
@@ -712,6 +724,14 @@ class _Num(Sym):
         return True if r is NotImplemented else r
 
     def __hash__(self):
+        # dict/set semantics: constant -> the value's hash; with engine.hash_concretize the value is
+        # enumerated (exact dict behaviour with mixed concrete/symbolic keys); otherwise all symbolic keys
+        # collide and are told apart by __eq__ (forks), which needs every key of that dict to be symbolic.
+        t = z3.simplify(self.term)
+        if z3.is_int_value(t):
+            return hash(t.as_long())
+        if _ENG is not None and _ENG.hash_concretize and z3.is_int(t):
+            return hash(_ENG.concretize(t))
         return 0
 
     def __pos__(self):
